@@ -56,7 +56,13 @@ SUMMARY = {
  "C15c": "Compact sets the new bucket's sequence with SetInSequence (header only): empty buckets and buckets cut off by the tx-size limit lose their sequence",
  "C05c": "Cursor.keyValue indexes the in-memory node with a uint16 (positions beyond 65535 in one uncommitted leaf wrap around)",
  "C20c": "surgery freelist abandon returns early when meta page 0 has no freelist (meta page 1 keeps pointing at one)",
- "C02c": "?",
+ "C02c": "ReleasePendingPages moved from beginRWTx to the start of Tx.Commit under a newly added metalock acquisition (same idea as C01b, independent)",
+ "C13c": "MoveBucket's same-bucket test loses its RootPage() != 0 guard (distinct inline buckets compare as the same bucket; inline-ness depends on the page size)",
+ "C11c": "DB.meta() accepts the higher-txid meta on magic and version alone (a meta page with a bad checksum can be selected)",
+ "C18c": "the MaxSize pre-check in allocate starts one page below the size grow() will truncate to",
+ "C09c": "RemoveReadonlyTXID finds the txid by binary search although swap-removal unsorts the list (same idea as C10a, independent)",
+ "C10c": "Commit's spill-failure path uses nonPhysicalRollback (same patch as C18b, independent): pages taken from the free list by the failed transaction are lost",
+ "C01d": "writeMeta drops the error of the fdatasync that follows the meta write (shadowed err): a commit whose final flush failed is acknowledged",
 }
 rows = []
 for d in sorted(glob.glob("/verif/seeded/*/meta.json")):
